@@ -10,7 +10,8 @@ from .source import Repo
 
 # ------------------------------------------------------------------ structured (non-leaf) values
 class Tup:
-    def __init__(s, items): s.items = list(items)
+    """finite tuple/list; exact=True (set by a driver) means "exactly these elements": loops over it are unrolled"""
+    def __init__(s, items, exact=False): s.items = list(items); s.exact = exact
     def __repr__(s): return "(" + ", ".join(map(repr, s.items)) + ")"
 class Obj:
     def __init__(s, ci, fields=None): s.ci, s.fields = ci, dict(fields or {})
@@ -134,6 +135,8 @@ class Interp:
                             if c: env[name] = Obj(c)            # module-level instance, e.g. ice = AntarcticIce()
                 elif tgt in s.repo.modules:
                     env[name] = Mod(tgt)
+                elif mod in s.repo.modules and n in s.repo.imports.get(mod, {}) and not s.repo.imports[mod][n].startswith("pyrex"):
+                    env[name] = Mod(s.repo.imports[mod][n])      # re-exported library name (e.g. the trapz compatibility import)
             else:
                 env[name] = Mod(tgt)
         for st in s.repo.modules[m].body:
@@ -149,7 +152,10 @@ class Interp:
         if depth > s.max_depth:
             return s.dom.top("inlining bound")
         node = fn.node
-        if ((fn.self_obj is None or s.untracked(fn.self_obj)) and all(s.untracked(a) for a in args)
+        # purity shortcut: only for calls that involve no repo object at all (objects have identity and mutable
+        # state: `signal.copy()` of an untracked signal must still yield an object that later stores can track)
+        if (fn.self_obj is None and not any(isinstance(a, Obj) for a in list(args) + list(kwargs.values()))
+                and all(s.untracked(a) for a in args)
                 and all(s.untracked(v) for v in kwargs.values()) and not isinstance(node, ast.Lambda)
                 and getattr(node, "name", "") != "__init__" and s.dom.pure_shortcut and isinstance(fn.env, dict)):
             s.stats["shortcuts"] += 1
@@ -402,7 +408,14 @@ class Interp:
             elif sb == "stop": sc.adopt(a)
             else: s.merge(sc, a, b, c)
         elif t in (ast.For, ast.While):
-            elem = s.iter_elem(s.eval(st.iter, sc, depth)) if t is ast.For else None
+            itv = s.eval(st.iter, sc, depth) if t is ast.For else None
+            if isinstance(itv, Tup) and itv.exact and not st.orelse:
+                for x in list(itv.items):
+                    s.bind(st.target, x, sc, depth)
+                    if s.block(st.body, sc, depth, rets) == "stop":
+                        break
+                return None
+            elem = s.iter_elem(itv) if t is ast.For else None
             for _ in range(4):
                 before = sc.snapshot()
                 body = sc.fork()
